@@ -393,6 +393,11 @@ def op_new(ex, st, args, I):
         n2 = z3.simplify(n) if is_z3(n) else n
         if is_z3(n2) and z3.is_bv_value(n2):
             n = n2.as_long()
+        elif getattr(ex, 'symbolic_new', False):
+            # block of unknown extent: uninitialised reads give fresh values, no bounds
+            r = ex.new_region(st, None, 'heap', 'new@' + ex.where(st), lazy=True)
+            st.event('symbolic-size-allocation', where=ex.where(st))
+            return Ptr(r.rid, 0)
         else:
             raise Unsupported('operator new with symbolic size')
     r = ex.new_region(st, n, 'heap', 'new@' + ex.where(st))
